@@ -84,14 +84,16 @@ structure WorkerShape (s s' : State) (i : Nat) : Prop where
   idle : idlePc (getW s i).pc → (getW s i).st ≠ .run →
     idlePc (getW s' i).pc ∧ (getW s' i).st = (getW s i).st ∧ (getW s' i).hasOut = (getW s i).hasOut
   free : ∀ j ∈ s'.threadsFree, j ∈ s.threadsFree ∨ (j = i ∧ ¬ idlePc (getW s i).pc)
+  stExit : (getW s i).st = .exit → (getW s' i).st = .exit
 
 theorem workerShape_of_setW (s : State) (i : Nat) (hi : i < s.workers.length) (w : Worker)
     (h1 : w.inFilled = (getW s i).inFilled) (h2 : w.inSize = (getW s i).inSize)
-    (h3 : idlePc (getW s i).pc → (getW s i).st ≠ .run → idlePc w.pc ∧ w.st = (getW s i).st ∧ w.hasOut = (getW s i).hasOut) :
+    (h3 : idlePc (getW s i).pc → (getW s i).st ≠ .run → idlePc w.pc ∧ w.st = (getW s i).st ∧ w.hasOut = (getW s i).hasOut)
+    (h4 : (getW s i).st = .exit → w.st = .exit := by intro h; first | exact h | simp_all) :
     WorkerShape s (MtDec.setW s i w) i := by
   have e : getW (MtDec.setW s i w) i = w := getW_setW_same s i w hi
   refine ⟨hi, rfl, rfl, rfl, rfl, rfl, rfl, rfl, rfl, rfl, rfl, rfl, by rw [e]; rfl, by rw [e]; exact h1, by rw [e]; exact h2, rfl,
-          by rw [e]; exact h3, fun j hj => Or.inl hj⟩
+          by rw [e]; exact h3, fun j hj => Or.inl hj, by rw [e]; exact h4⟩
 
 theorem WorkerShape.congr {s s1 s2 : State} {i : Nat} (h : WorkerShape s s1 i)
     (e1 : s2.pc = s1.pc) (e2 : s2.seq = s1.seq) (e3 : s2.cur = s1.cur) (e4 : s2.blocks = s1.blocks) (e5 : s2.cfg = s1.cfg)
@@ -103,7 +105,7 @@ theorem WorkerShape.congr {s s1 s2 : State} {i : Nat} (h : WorkerShape s s1 i)
   exact ⟨h.hi, e1.trans h.pc, e2.trans h.seq, e3.trans h.cur, e4.trans h.blocks, e5.trans h.cfg, e6.trans h.directPos,
     e7.trans h.thr, e8.trans h.outRev, e9.trans h.readPos, e10.trans h.outCap, e11.trans h.returned,
     by rw [e12, eg]; exact h.workers, by rw [eg]; exact h.inFilled, by rw [eg]; exact h.inSize, e13.trans h.qlen,
-    by rw [eg]; exact h.idle, e14⟩
+    by rw [eg]; exact h.idle, e14, by rw [eg]; exact h.stExit⟩
 
 theorem workerDecide_inFilled (w : Worker) : (workerDecide w).inFilled = w.inFilled := by
   unfold workerDecide; split <;> (try split) <;> rfl
@@ -122,6 +124,7 @@ theorem workerShape_wLoop {s s' : State} {i : Nat} {c : Cause} (hs : step s (.wL
     subst key
     exact workerShape_of_setW s i hi _ (workerDecide_inFilled _) (workerDecide_inSize _)
       (fun _ hst => ⟨workerDecide_idle _ hst, workerDecide_st _, workerDecide_hasOut _⟩)
+      (fun h => by rw [workerDecide_st]; exact h)
   · cases hs
 
 theorem workerShape_wDecode {s s' : State} {i a b : Nat} {v : Bool} (hs : step s (.wDecode i a b v) = some s') :
